@@ -13,6 +13,9 @@ PROP = Prop(
     lemmas=gl.all_c02_lemmas,
     level='proof',
     replay=script_replay('replay/guesser.py'),
+    bounded=[Bounded('C02.bounded.run', 'replay/guesser.py', args=['--fn', 'RUN'],
+                     bound='60 random rulesets (1-3 base structures incl. duplicates, repeated variable types, tie-rich dyadic probabilities), run to exhaustion',
+                     clause='cross-check on the real classes: the emitted multiset equals the set of derivations (exactly once), children pushed == adopted children')],
     assumptions=[
         'A-FP (only the order embedding of floats is used here: ties are exact equalities of values)',
         'lists are values (no aliasing between child/new_parent copies and the parent pt)',
